@@ -14,34 +14,81 @@ P = {'id': 'C12',
               'kasai_correct',
               'bwt_correct',
               'bwt_perm',
-              'c12_pipeline'],
+              'c12_pipeline',
+              'sa_equal_range_exact',
+              'sa_match_continuation_longest',
+              'da_match_is_continuation',
+              'da_match_max_length_longest',
+              'esa_lcp_at_is_kasai',
+              'esa_bwt_is_bwt',
+              'cesa_lcp_at_is_kasai',
+              'cesa_too_long_refused',
+              'stored_width_exact_iff',
+              'cesa_narrow_width_refuted',
+              'sort_by_cmp_is_sa',
+              'build_by_plain_is_build',
+              'build_by_is_sa',
+              'keyed_compare_is_suffix_compare',
+              'keyed_sort_is_sa',
+              'keyed_sort_last_nonzero',
+              'keyed_compare_refuted',
+              'sais_classify_correct',
+              'sais_names_order_lms_substrings',
+              'sais_recursion_needed_iff_duplicate_names',
+              'sais_is_sa_partial',
+              'sais_go_is_sa_partial',
+              'build_with_sais_model_is_sa',
+              'sais_too_long_refused',
+              'induced_sort_lemmas_small'],
  'trusted': ['modelled (M+S): src/algorithms/suffix_array.rs SuffixArray::{compare_suffix_pattern, lower_bound, upper_bound, search_range, search}, '
              'SuffixArrayBuilder::{select_algorithm, build, build_sequential, build_parallel, dc3_construct, divsufsort_construct, '
-             'larsson_sadakane_construct, fallback_sort}, LcpArray::compute_lcp_kasai, EnhancedSuffixArray::compute_bwt; '
-             'src/compression/suffix_array.rs EnhancedSuffixArray::{lower_bound, upper_bound, find_pattern_range}, compute_lcp_kasai (same text)',
-             'certificate-checked, not modelled (cell build/SAIS is S-only): sais_construct (induced sorting) - every SA-IS output of a run on a text of at most '
-             '300 bytes is passed through the verified checker check_sa inside Coq; larger ones are judged by the Rust oracle only',
-             'parameter of the model: the f64 part of select_algorithm (entropy, repetition ratio); build_is_sa quantifies over every choice it can make',
-             'spec-only cells (direct oracle, no mechanism model): compression::dict_zip::SuffixArrayDictionary::{sa_match_continuation, da_match_max_length}; '
-             'the IntVec storage of the compressor (values read back through suffix_at_rank / lcp_at)',
+             'larsson_sadakane_construct, fallback_sort}, LcpArray::{compute_lcp_kasai, lcp_at}, EnhancedSuffixArray::{with_lcp, with_bwt, compute_bwt}; '
+             'SA-IS: sais_construct, sais_construct_with_depth, classify_suffixes, find_lms_suffixes, compute_bucket_boundaries, induced_sort, induce_l_type, '
+             'induce_s_type, compact_lms_suffixes, name_lms_substrings, are_lms_substrings_equal (executable model ModelSais.v, final array and per-level '
+             'intermediate arrays compared with the code through the cfg(zipora_verif) trace hook); '
+             'src/compression/suffix_array.rs SuffixArrayCompressor::build_suffix_array (u32 casts, index refusal), EnhancedSuffixArray::{suffix_at_rank, lcp_at, '
+             'len, is_empty, text_len, lower_bound, upper_bound, find_pattern_range}, compute_lcp_kasai (same text); '
+             'src/compression/dict_zip/dictionary.rs SuffixArrayDictionary::{sa_equal_range, sa_equal_range_linear, sa_equal_range_binary_optimized, '
+             'sa_match_continuation, da_match_max_length}',
+             'hypotheses of sais_is_sa_partial (not proved): final_ok and first_ok, the correctness of one round of induced sorting seeded with sorted LMS '
+             'suffixes / of the first round plus naming (order isomorphism of the reduced string); they are evaluated on every string of length <= 12 over 2 letters '
+             'and <= 8 over 3 (induced_sort_lemmas_small), and every SA-IS output of a run on a text of at most 300 bytes is still passed through the verified '
+             'checker check_sa inside Coq (larger ones: Rust oracle only)',
+             'parameters of the models: the f64 part of select_algorithm (entropy, repetition ratio; build_is_sa quantifies over every choice it can make); '
+             'the trie transition function used by da_match_max_length (ZiporaTrie, property C05; the theorem needs only "no transition from the root to the root", '
+             'and the correspondence cases would show a violation as a disagreement); DfaCache::get_zstr_length and get_state are constant None / root-only in this code',
+             'taken as a faithful store: the packed-integer container IntVec<u32> (property C09) behind compression::suffix_array (values read back through '
+             'suffix_at_rank / lcp_at are compared with the model); the DFA-cache construction inside SuffixArrayDictionary (only its query results are judged)',
              "not modelled: Rust's sort_by (a comparison sort on pairwise distinct keys; the model sorts by insertion and sa_unique shows every correct sort "
              'returns the same list)'],
- 'assumptions': ['usize arithmetic is modelled on unbounded nat: no overflow is reachable (mid = left + (right-left)/2, indices <= n <= 2^30)',
+ 'assumptions': ['usize arithmetic is modelled on unbounded nat: no overflow is reachable (mid = left + (right-left)/2, indices <= n <= 2^30; suffix_idx + pos <= 2n); '
+                 'the `as u32` casts of compression::suffix_array are modelled as reduction modulo 2^32',
                  'agreement of model and code is established on the generated cases only',
-                 'SA-IS correctness is established per run on the cases run, not for all texts'],
+                 'SA-IS: sais_is_sa_partial is conditional on the two induced-sort hypotheses; unconditional SA-IS correctness is established per run on the cases run'],
  'level_text': 'Machine-checked Coq theorems, for every byte string with no length bound, about a Gallina restatement of the suffix-array code as written: the '
                'suffix array is unique; the sort-based constructions (DC3, DivSufSort, Larsson-Sadakane, fallback, Adaptive below the threshold) with their '
-               'short-input special cases return it for every configuration; a verified certificate checker decides "is the suffix array"; Kasai as written '
-               '(h not reset at rank 0) returns the exact LCP array; compute_bwt is the BWT induced by the order and a permutation of the text; search_range '
-               'returns exactly the contiguous rank range of the suffixes that start with the pattern, search lists all and only the occurrences with the right '
-               'count, and the compressor\'s copy of the loops returns the same range. SA-IS is not proved: its outputs are certified per run by the verified '
-               'checker evaluated in Coq. The model is tied to the compiled code on every run by evaluating 1250 cases in Coq (arrays, LCP, BWT and search results '
-               'of the implementation must be reproduced by the model, and the oracle verdict must equal check_sa), and a naive oracle judges every implementation '
-               'and configuration on an exhaustive small universe plus boundary-biased generated texts.',
- 'level_note': 'Trusted: Coq kernel + vm_compute; the hand-written model (agreement with the code is checked on generated cases only); harness generators and '
-               'naive oracle. The SA-IS cell and the dictionary matcher cells are S-only (oracle / per-run certificate), not proof.',
- 'technique': 'Coq proof (strict-order uniqueness of sorted permutations, insertion-sort correctness, binary-search invariant over a comparator proved monotone '
-              'along a sorted array, Kasai loop invariant "h = 0 or h <= lcp with some smaller suffix") + verified certificate checker applied to SA-IS outputs '
-              '+ model/implementation differential check by vm_compute + naive oracle over an enumerated universe',
- 'explanation': 'Unbounded theorems for the sort-based constructions, search_range/search, Kasai, BWT and the certificate checker; SA-IS outputs certified per '
-                'run; exhaustive small-universe oracle over all five algorithms, LCP, BWT, search, the compressor wrapper and the PA-Zip dictionary matcher.'}
+               'short-input special cases return it for every configuration, and for every comparator that is the slice order on the suffixes - a zero-padded '
+               'key-then-remainder comparison is characterised exactly (it differs only on two different strings inside the key with equal padded keys; wrong on '
+               '"\\0\\0"); a verified certificate checker decides "is the suffix array"; Kasai as written returns the exact LCP array; compute_bwt is the BWT '
+               'induced by the order; search_range / search return exactly the rank range / all and only the occurrences, and the compressor\'s copy of the loops '
+               'returns the same range; both enhanced-suffix-array containers return the Kasai value at every rank through lcp_at (the u32 store of the compressor is '
+               'exact for every text it accepts, i.e. up to 2^32 bytes, longer ones are refused; a W-bit store is exact iff all values are below 2^W); the PA-Zip '
+               'dictionary\'s sa_equal_range (phase-1 skip, linear shortcut, find-any, lower and upper bound) returns exactly the ranks of a common-prefix range with '
+               'byte c at depth d, sa_match_continuation the longest occurring prefix of the input with its exact rank range, and da_match_max_length is the same '
+               'function for every trie without a root self-transition. SA-IS has an executable model of the code (classification, LMS, buckets, induced sorting L '
+               'then S, naming, fuelled recursion, depth fallback): classification and LMS positions equal their definitions, names are order-isomorphic to the LMS '
+               'substrings, the recursion is entered iff two names coincide, and the whole algorithm returns the suffix array given two stated facts about one round '
+               'of induced sorting (hypotheses; checked on a complete small domain, and each run\'s outputs are certified by the verified checker). The models are '
+               'tied to the compiled code on every run by evaluating about 1550 cases in Coq (arrays, LCP, BWT, search results, dictionary range / match calls, '
+               'accessor probes, SA-IS final arrays and per-level intermediate arrays must be reproduced by the models, and the oracle verdict must equal check_sa), and '
+               'a naive oracle judges every implementation and configuration on an exhaustive small universe plus boundary-biased generated texts.',
+ 'level_note': 'Trusted: Coq kernel + vm_compute; the hand-written models (agreement with the code is checked on generated cases only); harness generators and '
+               'naive oracle. SA-IS end-to-end correctness is conditional on the two induced-sort hypotheses (plus per-run certificates); IntVec and ZiporaTrie are '
+               'outside this property.',
+ 'technique': 'Coq proof (strict-order uniqueness of sorted permutations, insertion-sort correctness, binary-search invariants over a comparator / probe key proved '
+              'monotone along a sorted array, Kasai loop invariant, running-class-counter lemmas for the LMS naming, fuel induction for the SA-IS recursion) + verified '
+              'certificate checker applied to SA-IS outputs + model/implementation differential check by vm_compute (including a cfg-guarded trace hook for the SA-IS '
+              'intermediate arrays) + naive oracle over an enumerated universe',
+ 'explanation': 'Unbounded theorems for the sort-based constructions and comparator shapes, search_range/search, Kasai, BWT, both enhanced containers, the PA-Zip '
+                'dictionary matcher and the certificate checker; SA-IS modelled and proved up to two induced-sort hypotheses, outputs certified per run; exhaustive '
+                'small-universe oracle over all five algorithms, LCP, BWT, search, the compressor wrapper and every refinement step of the dictionary matcher.'}
